@@ -53,22 +53,27 @@ type poolOp struct {
 
 // reqLog is one request observed by a server: which connection, which user.
 type reqLog struct {
-	conn  int
-	user  string
-	hold  int // holding interval id of that user (0 for Pool.Do/Pool.Ping)
-	step  int
-	at    time.Duration
+	conn int
+	user string
+	hold int // holding interval id of that user (0 for Pool.Do/Pool.Ping)
+	step int
+	at   time.Duration
 }
 
 type holdIv struct {
-	user       string
-	id         int
-	from, to   int // scheduler steps; to = -1 while held
-	conn       int // -1 until a request reveals it
-	fromAt     time.Duration
+	user     string
+	id       int
+	from, to int // scheduler steps; to = -1 while held
+	conn     int // -1 until a request reveals it
+	fromAt   time.Duration
 }
 
-func runC11(t *testing.T, c *choice.Stream, r *Result, opt RunOpt) {
+func runC11(t *testing.T, c *choice.Stream, r *Result, opt RunOpt) { runPool(t, c, r, opt, false) }
+
+// runPool is the pool workload; lean=true (race build, C12) drops every piece
+// of bookkeeping shared between the scheduler and the user goroutines, so
+// that the only memory they share is the library's.
+func runPool(t *testing.T, c *choice.Stream, r *Result, opt RunOpt, lean bool) {
 	Bubble(t, c, r, opt, func(e *Env) func() {
 		cf := &Conf{ClientRev: 54460, ServerRev: 54460, ReadTimeout: time.Second}
 		if c.Bool("rev.old", 1, 4) {
@@ -80,7 +85,9 @@ func runC11(t *testing.T, c *choice.Stream, r *Result, opt RunOpt) {
 		if minConns > maxConns {
 			minConns = maxConns
 		}
-		sec := func(label string, vals ...int) time.Duration { return time.Duration(c.Pick(label, vals...)) * time.Second }
+		sec := func(label string, vals ...int) time.Duration {
+			return time.Duration(c.Pick(label, vals...)) * time.Second
+		}
 		lifetime := sec("lifetime", 4, 10, 60, 3600)
 		idleTime := sec("idletime", 3, 8, 1800)
 		period := sec("period", 1, 2, 60)
@@ -155,12 +162,16 @@ func runC11(t *testing.T, c *choice.Stream, r *Result, opt RunOpt) {
 			srv.Auto = func(s *simnet.Server, cn *simnet.Conn, p *refproto.ClientPacket) {
 				switch p.Kind {
 				case refproto.PPing:
-					u, h := userOf(cn, p)
-					reqs = append(reqs, reqLog{conn: cn.ID, user: u, hold: h, step: e.Sim.Step, at: e.Sim.Now()})
+					if !lean {
+						u, h := userOf(cn, p)
+						reqs = append(reqs, reqLog{conn: cn.ID, user: u, hold: h, step: e.Sim.Step, at: e.Sim.Now()})
+					}
 					cn.Enqueue((&SPacket{Kind: "pong"}).Encode(cf))
 				case refproto.PQuery:
-					u, h := userOf(cn, p)
-					reqs = append(reqs, reqLog{conn: cn.ID, user: u, hold: h, step: e.Sim.Step, at: e.Sim.Now()})
+					if !lean {
+						u, h := userOf(cn, p)
+						reqs = append(reqs, reqLog{conn: cn.ID, user: u, hold: h, step: e.Sim.Step, at: e.Sim.Now()})
+					}
 					body = p.Body
 				case refproto.PData:
 					if body == "" || p.Block == nil || len(p.Block.Cols) != 0 {
@@ -207,7 +218,7 @@ func runC11(t *testing.T, c *choice.Stream, r *Result, opt RunOpt) {
 		maxLive := 0
 		seenReqs := 0
 		e.Sim.OnStep = append(e.Sim.OnStep, func() {
-			if stepErr != "" {
+			if lean || stepErr != "" {
 				return
 			}
 			if n := live(); n > maxLive {
@@ -292,6 +303,9 @@ func runC11(t *testing.T, c *choice.Stream, r *Result, opt RunOpt) {
 			r.Violate("stuck", "stuck", "the pool workload made no progress for an hour of simulated time\n%s", info)
 		}
 		e.After = func(out sched.Outcome) {
+			if lean {
+				return
+			}
 			if stepErr != "" {
 				p := strings.SplitN(stepErr, "|", 3)
 				r.Violate(p[0], p[1], "%s", p[2])
@@ -313,7 +327,11 @@ func runC11(t *testing.T, c *choice.Stream, r *Result, opt RunOpt) {
 			}
 		}
 		return func() {
-			defer func() { mainFinished = true }()
+			defer func() {
+				if !lean {
+					mainFinished = true
+				}
+			}()
 			ctx := context.Background()
 			opts := cf.Options()
 			opts.Dialer = dialer
@@ -377,14 +395,17 @@ func runC11(t *testing.T, c *choice.Stream, r *Result, opt RunOpt) {
 							}
 							cl = x
 							nHold++
-							iv = &holdIv{user: name, id: nHold, from: e.Sim.Step, to: -1, conn: -1, fromAt: e.Sim.Now()}
-							holds = append(holds, iv)
+							iv = &holdIv{user: name, id: nHold, to: -1, conn: -1}
+							if !lean {
+								iv.from, iv.fromAt = e.Sim.Step, e.Sim.Now()
+								holds = append(holds, iv)
+							}
 						case "release":
 							if cl == nil {
 								continue
 							}
 							// what the statement says about this release
-							if iv.conn >= 0 {
+							if !lean && iv.conn >= 0 {
 								var cn *simnet.Conn
 								for _, d := range dialer.Dialed {
 									if d.ID == iv.conn {
@@ -398,7 +419,9 @@ func runC11(t *testing.T, c *choice.Stream, r *Result, opt RunOpt) {
 									r.Fire("expired_at_release")
 								}
 							}
-							iv.to = e.Sim.Step
+							if !lean {
+								iv.to = e.Sim.Step
+							}
 							for k := 0; k < op.N; k++ {
 								if k > 0 {
 									r.Fire("double_release")
@@ -442,7 +465,9 @@ func runC11(t *testing.T, c *choice.Stream, r *Result, opt RunOpt) {
 						}
 					}
 					if cl != nil {
-						iv.to = e.Sim.Step
+						if !lean {
+							iv.to = e.Sim.Step
+						}
 						cl.Release()
 					}
 				})
@@ -456,7 +481,7 @@ func runC11(t *testing.T, c *choice.Stream, r *Result, opt RunOpt) {
 				e.Sim.Yield("main.user-done")
 			}
 			// I5: idle connections past their idle time / lifetime go away within a period (+1 s)
-			if !closeEarly && idleTime+period < 30*time.Second {
+			if !lean && !closeEarly && idleTime+period < 30*time.Second {
 				e.Sim.SetFair()
 				time.Sleep(idleTime + period + time.Second)
 				e.Sim.Yield("main.after-idle-wait")
